@@ -449,6 +449,7 @@ func genOverlay(p *packages.Package, con *Contracts, L *Loaded) (string, []strin
 				var aps []string
 				seenA := map[string]bool{}
 				var avars []loopVar
+				var callSig *types.Signature
 				if fd != nil && fd.Body != nil {
 					at := fd.Body.Rbrace
 					// the variables in scope at the first call of the callee (nested scopes included)
@@ -472,6 +473,9 @@ func genOverlay(p *packages.Package, con *Contracts, L *Loaded) (string, []strin
 							if nm == cl.Callee {
 								at = ce.Pos()
 								found = true
+								if sg, ok := p.TypesInfo.TypeOf(ce.Fun).(*types.Signature); ok {
+									callSig = sg
+								}
 								return false
 							}
 							return true
@@ -485,6 +489,14 @@ func genOverlay(p *packages.Package, con *Contracts, L *Loaded) (string, []strin
 					}
 					seenA[v.Name] = true
 					aps = append(aps, v.Name+" "+strings.Replace(g.typ(v.Type), "...", "[]", 1))
+				}
+				// the arguments of the call, by position: __arg0, __arg1, ... (robust against renamed locals)
+				cl.NArgs = 0
+				if callSig != nil && strings.Contains(e, "__arg") && !callSig.Variadic() {
+					for k := 0; k < callSig.Params().Len(); k++ {
+						aps = append(aps, fmt.Sprintf("__arg%d %s", k, g.typ(callSig.Params().At(k).Type())))
+					}
+					cl.NArgs = callSig.Params().Len()
 				}
 				L.AssertVars[cl.FuncName] = avars
 				w("%sfunc %s%s(%s) bool {\n\treturn %s\n}\n", origin, cl.FuncName, tparams, strings.Join(aps, ", "), e)
